@@ -17,6 +17,7 @@ PU = "src/linter_config/pattern_utils.py"
 CLI = "src/cli/utils.py"
 FINGERPRINTS = [
     (CORE, ["_collect_files_fast", "_collect_files_from_walk", "lint_file", "lint_files", "lint_directory"]),
+    (CORE, ["lint_directory_parallel", "lint_files_parallel", "_execute_parallel_linting", "_lint_file_worker"]),
     (IGN, ["is_ignored", "_load_repo_ignores", "_parse_thailintignore_file", "_parse_config_file", "_extract_ignore_patterns"]),
     (PU, ["matches_pattern", "_matches_directory_pattern", "extract_patterns_from_content"]),
     (CLI, ["separate_files_and_dirs", "execute_linting_on_paths"]),
@@ -400,6 +401,49 @@ def cli_paths():
     return defn("cli_paths_shape_checked", "bool", "true")
 
 
+def collect_call_args():
+    """which `recursive` value lint_directory / lint_directory_parallel hand to _collect_files_fast (absent => the parameter's default),
+    and that the parallel path runs lint_file per collected path (in the worker or in the sequential fallback)"""
+    mod = parse(CORE)
+    cls = find_class(mod, "Orchestrator")
+    cf = find_func(mod, "_collect_files_fast")
+    _params(cf, ["dir_path", "recursive"])
+    if len(cf.args.defaults) != 1:
+        raise Unsupported("_collect_files_fast: defaults changed")
+    default = const_value(cf.args.defaults[0])
+    if not isinstance(default, bool):
+        raise Unsupported("_collect_files_fast: default of recursive is not a bool")
+    out = ""
+    for coq_name, fn in (("seq_collect_recursive", "lint_directory"), ("par_collect_recursive", "lint_directory_parallel")):
+        f = find_func(cls, fn)
+        if [a.arg for a in f.args.args][:3] != ["self", "dir_path", "recursive"]:
+            raise Unsupported(f"{fn}: parameters changed")
+        calls = [n for n in ast.walk(f) if isinstance(n, ast.Call) and isinstance(n.func, ast.Name) and n.func.id == "_collect_files_fast"]
+        if len(calls) != 1 or not calls[0].args or ast.unparse(calls[0].args[0]) != "dir_path":
+            raise Unsupported(f"{fn}: call of _collect_files_fast")
+        c = calls[0]
+        arg = c.args[1] if len(c.args) > 1 else next((k.value for k in c.keywords if k.arg == "recursive"), None)
+        if len(c.args) > 2 or any(k.arg != "recursive" for k in c.keywords):
+            raise Unsupported(f"{fn}: unexpected arguments to _collect_files_fast")
+        tr = Tr({"recursive": ("recursive", "bool")})
+        body = ("true" if default else "false") if arg is None else tr.cond(arg)
+        out += defn(f"{coq_name} (recursive : bool)", "bool", body)
+    par = ast.unparse(find_func(cls, "lint_directory_parallel"))
+    if "return self.lint_files_parallel(file_paths, max_workers=max_workers)" not in par:
+        raise Unsupported("lint_directory_parallel: does not hand the collected paths to lint_files_parallel")
+    lfp = ast.unparse(find_func(cls, "lint_files_parallel"))
+    for needle in ["return self.lint_files(file_paths)", "violations = self._execute_parallel_linting(file_paths, effective_workers)"]:
+        if needle not in lfp:
+            raise Unsupported(f"lint_files_parallel: missing `{needle}`")
+    ex = ast.unparse(find_func(cls, "_execute_parallel_linting"))
+    if "work_items = [(fp, self.project_root, self.config) for fp in file_paths]" not in ex or "executor.submit(_lint_file_worker, item)" not in ex:
+        raise Unsupported("_execute_parallel_linting: work items changed")
+    w = ast.unparse(find_func(mod, "_lint_file_worker"))
+    if "orchestrator = Orchestrator(project_root=project_root, config=config)" not in w or "violations = orchestrator.lint_file(file_path)" not in w:
+        raise Unsupported("_lint_file_worker: does not run lint_file")
+    return out
+
+
 ITEMS = [
     ("excluded_dirs", excluded_dirs),
     ("excluded_exts", excluded_exts),
@@ -412,4 +456,5 @@ ITEMS = [
     ("extract_patterns", extract_patterns),
     ("repo_ignore_sources", repo_ignore_sources),
     ("cli_paths", cli_paths),
+    ("collect_call_args", collect_call_args),
 ]
